@@ -91,6 +91,7 @@ pub fn family_size(f: u8) -> u64 {
         2 | 3 => total(6, 5),
         4..=7 => total(8, 4),
         8..=11 => total(7, 4),
+        12 => total(6, 3) * 4,
         _ => 0,
     }
 }
@@ -398,7 +399,7 @@ impl Prop for C20 {
     }
     fn fixed(&self, tier: Tier) -> Vec<Case> {
         let mut v = Vec::new();
-        for f in 0..12u8 {
+        for f in 0..13u8 {
             let n = family_size(f);
             let step = 512;
             let mut i = 0;
